@@ -112,6 +112,25 @@ func isConstruction(r *core.Run, fn *ssa.Function) bool {
 	if constructors[fname(r, fn)] {
 		return true
 	}
+	// a named function of the option's own shape — func(*GoFakeS3) / func(*Backend) error — that no
+	// code calls directly: it only ever runs as an option value handed to the constructor
+	if fn.Parent() == nil && fn.Signature.Recv() == nil && fn.Signature.Params().Len() == 1 {
+		if pt, ok := fn.Signature.Params().At(0).Type().(*types.Pointer); ok {
+			if n, ok := pt.Elem().(*types.Named); ok && (n.Obj().Name() == "GoFakeS3" || strings.HasSuffix(n.Obj().Name(), "Backend")) {
+				called := false
+				for _, f := range r.P.RepoFuncs() {
+					core.Instrs(f, func(in ssa.Instruction) {
+						if c, ok := in.(ssa.CallInstruction); ok && core.StaticCallee(c) == fn {
+							called = true
+						}
+					})
+				}
+				if !called {
+					return true
+				}
+			}
+		}
+	}
 	if p := fn.Parent(); p != nil && p.Parent() == nil {
 		res := p.Signature.Results()
 		if res.Len() == 1 {
